@@ -6,11 +6,17 @@
 (* the virtual clock) against the operators of OutlierOps (property C20).  *)
 (*                                                                         *)
 (* harness/cmd/c20 records one ndjson line per operation:                  *)
-(*   new     tr, rule (record as in OutlierOps, times in ms), pct [num,den],*)
-(*           active                                                        *)
-(*   req     id, filter [nodes], half [nodes]   what FilterNodes() /       *)
-(*           HalfOpenNodes() of the admitted entry returned (as sets)      *)
+(*   new     tr, cfgs [[rule (record as in OutlierOps, times in ms),       *)
+(*           pct [num,den], active], ...]   one configuration per resource *)
+(*           of the scenario (resources 1..Len(cfgs); they share the slot  *)
+(*           chain and therefore the pooled entry contexts)                *)
+(*           (old replay files: rule, pct, active = one resource)          *)
+(*   req     id, res, filter [nodes], half [nodes]   what FilterNodes() /  *)
+(*           HalfOpenNodes() of the admitted entry of resource res         *)
+(*           returned (as sets); res defaults to 1                         *)
 (*   done    id, node, err      the entry exits after TraceCallee(node)    *)
+(*   leave   id                 the entry exits without a callee address   *)
+(*   obs     res, filter, half  = req directly followed by leave           *)
 (*   tick    t                  ms since the start of the scenario         *)
 (*   active  node               the retryer's health check of node was     *)
 (*                              answered "healthy" (real timer, thorough)  *)
@@ -24,6 +30,13 @@
 (* The state always follows what the spec computes (the answer sets do not *)
 (* feed back into the state), except `recycle', where the set of forgotten *)
 (* nodes is read off the observation.                                      *)
+(* Every request of every resource must be told EXACTLY: filter = a subset *)
+(* of the nodes of ITS resource whose breaker rejects now, of size <= cap; *)
+(* half = the nodes of its resource this request probes passively - in     *)
+(* particular two empty lists when nothing rejects and nothing is probed,  *)
+(* whatever an earlier entry left in the pooled context (`pool' keeps the  *)
+(* answers of the finished entries of the trace: the expected record says  *)
+(* whether a forbidden answer is such a left-over, "stale").               *)
 (* Non-maximal filter sets are not forbidden by the statement: they are    *)
 (* printed as "DRIFT <trace> <line>" and only counted.                     *)
 (***************************************************************************)
@@ -33,14 +46,20 @@ Trace == ndJsonDeserialize("trace.ndjson")
 
 VARIABLES
     l,        \* next line of Trace
-    g,        \* [tr, rule, pct, active] of the running trace
+    g,        \* [tr, cfgs] of the running trace; cfgs[r] = [rule, pct, active] of resource r
     failed,   \* the running trace already mismatched
-    now, nbk, inflight, rec
+    now,
+    nbk,      \* resource -> (node -> breaker)
+    inflight, \* id -> [t, res, ans]
+    rec,      \* resource -> recycler marks
+    pool      \* answers left in the contexts of finished entries (diagnostic only: which one an entry draws is not observable)
 
-tvars == <<l, g, failed, now, nbk, inflight, rec>>
+tvars == <<l, g, failed, now, nbk, inflight, rec, pool>>
 
 Ev == Trace[l]
 SetOf(s) == { s[i] : i \in DOMAIN s }
+ResOf(e) == IF "res" \in DOMAIN e THEN e.res ELSE 1
+CfgsOf(e) == IF "cfgs" \in DOMAIN e THEN e.cfgs ELSE << [rule |-> e.rule, pct |-> e.pct, active |-> e.active] >>
 
 Judge(ok, expected) ==
     IF failed \/ ok THEN failed' = failed
@@ -51,48 +70,77 @@ IsEvent(op) == l <= Len(Trace) /\ Ev.op = op /\ l' = l + 1
 
 TNew ==
     /\ IsEvent("new")
-    /\ g' = [tr |-> Ev.tr, rule |-> Ev.rule, pct |-> Ev.pct, active |-> Ev.active]
-    /\ now' = 0 /\ nbk' = << >> /\ inflight' = << >> /\ rec' = << >>
+    /\ g' = [tr |-> Ev.tr, cfgs |-> CfgsOf(Ev)]
+    /\ now' = 0 /\ inflight' = << >> /\ pool' = {}
+    /\ nbk' = [r \in DOMAIN CfgsOf(Ev) |-> << >>]
+    /\ rec' = [r \in DOMAIN CfgsOf(Ev) |-> << >>]
     /\ failed' = FALSE
+
+\* the judgement of one request of resource r (answer F, H as recorded in event e); ans = what stays in the context
+Ask(e, r, keepOpen) ==
+    LET c == g.cfgs[r]
+        v == View(nbk[r], c.rule, now)
+        F == SetOf(e.filter)
+        H == SetOf(e.half)
+        R == Rejecting(v)
+    IN  /\ r \in DOMAIN g.cfgs
+        /\ nbk' = [nbk EXCEPT ![r] = After(v)]
+        /\ rec' = IF R = {} THEN rec ELSE [rec EXCEPT ![r] = Sched(@, R)]
+        /\ IF keepOpen THEN /\ inflight' = With(inflight, e.id, [t |-> now, res |-> r, ans |-> Answer(F, H)])
+                            /\ pool' = pool
+                       ELSE /\ inflight' = inflight
+                            /\ pool' = pool \cup {Answer(F, H)}
+        /\ (IF ~failed /\ FilterOK(F, v, c.pct) /\ HalfOK(H, v, c.active) /\ ~FilterTight(F, v, c.pct)
+              THEN PrintT("DRIFT " \o ToString(g.tr) \o " " \o ToString(l)) ELSE TRUE)
+        /\ Judge(/\ Len(e.filter) = Cardinality(F) /\ Len(e.half) = Cardinality(H)    \* no duplicates
+                 /\ FilterOK(F, v, c.pct)
+                 /\ HalfOK(H, v, c.active)
+                 /\ QuietOK(F, H, v, c.active),
+                 [res |-> r, known |-> Cardinality(DOMAIN v), cap |-> Cap(Cardinality(DOMAIN v), c.pct),
+                  rejecting |-> Rejecting(v), half |-> ExpHalf(v, c.active), quiet |-> Quiet(v, c.active),
+                  stale |-> Answer(F, H) # FreshCtx /\ Answer(F, H) \in pool])
 
 TReq ==
     /\ IsEvent("req")
-    /\ LET v == View(nbk, g.rule, now)
-           F == SetOf(Ev.filter)
-           H == SetOf(Ev.half)
-           R == Rejecting(v)
-       IN  /\ nbk' = After(v)
-           /\ rec' = IF R = {} THEN rec ELSE Sched(rec, R)
-           /\ inflight' = With(inflight, Ev.id, now)
-           /\ (IF ~failed /\ FilterOK(F, v, g.pct) /\ HalfOK(H, v, g.active) /\ ~FilterTight(F, v, g.pct)
-                 THEN PrintT("DRIFT " \o ToString(g.tr) \o " " \o ToString(l)) ELSE TRUE)
-           /\ Judge(/\ Len(Ev.filter) = Cardinality(F) /\ Len(Ev.half) = Cardinality(H)    \* no duplicates
-                    /\ FilterOK(F, v, g.pct)
-                    /\ HalfOK(H, v, g.active),
-                    [known |-> Cardinality(DOMAIN v), cap |-> Cap(Cardinality(DOMAIN v), g.pct),
-                     rejecting |-> Rejecting(v), half |-> ExpHalf(v, g.active)])
+    /\ Ask(Ev, ResOf(Ev), TRUE)
+    /\ UNCHANGED <<now, g>>
+
+TObs ==
+    /\ IsEvent("obs")
+    /\ Ask(Ev, ResOf(Ev), FALSE)
     /\ UNCHANGED <<now, g>>
 
 TDone ==
     /\ IsEvent("done")
     /\ Ev.id \in DOMAIN inflight
-    /\ nbk' = CompleteAt(nbk, g.rule, Ev.node, now, now - inflight[Ev.id], Ev.err)
-    /\ rec' = IF Ev.err THEN rec ELSE Recover(rec, Ev.node)
+    /\ LET r == inflight[Ev.id].res
+       IN  /\ nbk' = [nbk EXCEPT ![r] = CompleteAt(@, g.cfgs[r].rule, Ev.node, now, now - inflight[Ev.id].t, Ev.err)]
+           /\ rec' = IF Ev.err THEN rec ELSE [rec EXCEPT ![r] = Recover(@, Ev.node)]
+    /\ pool' = pool \cup {inflight[Ev.id].ans}
     /\ inflight' = Without(inflight, {Ev.id})
     /\ UNCHANGED <<now, g, failed>>
+
+TLeave ==
+    /\ IsEvent("leave")
+    /\ Ev.id \in DOMAIN inflight
+    /\ pool' = pool \cup {inflight[Ev.id].ans}
+    /\ inflight' = Without(inflight, {Ev.id})
+    /\ UNCHANGED <<now, g, failed, nbk, rec>>
 
 TTick ==
     /\ IsEvent("tick")
     /\ Ev.t >= now
     /\ now' = Ev.t
-    /\ nbk' = [n \in DOMAIN nbk |-> [nbk[n] EXCEPT !.ref = Prune(@, BL(g.rule), g.rule.I, Ev.t)]]
-    /\ UNCHANGED <<g, failed, inflight, rec>>
+    /\ nbk' = [r \in DOMAIN nbk |-> [n \in DOMAIN nbk[r] |->
+                  [nbk[r][n] EXCEPT !.ref = Prune(@, BL(g.cfgs[r].rule), g.cfgs[r].rule.I, Ev.t)]]]
+    /\ UNCHANGED <<g, failed, inflight, rec, pool>>
 
 TActive ==
     /\ IsEvent("active")
-    /\ rec' = Recover(rec, Ev.node)
-    /\ nbk' = IF Ev.node \in DOMAIN nbk THEN [nbk EXCEPT ![Ev.node] = OnComplete(@, g.rule, now, 0, FALSE)] ELSE nbk
-    /\ UNCHANGED <<now, g, failed, inflight>>
+    /\ LET r == ResOf(Ev)
+       IN  /\ rec' = [rec EXCEPT ![r] = Recover(@, Ev.node)]
+           /\ nbk' = IF Ev.node \in DOMAIN nbk[r] THEN [nbk EXCEPT ![r][Ev.node] = OnComplete(@, g.cfgs[r].rule, now, 0, FALSE)] ELSE nbk
+    /\ UNCHANGED <<now, g, failed, inflight, pool>>
 
 \* All recycle timers armed so far have fired.  The observation request (pct = 1, so the cap hides nothing)
 \* shows which of the nodes that must be visible are gone: exactly those were forgotten.  The property:
@@ -100,21 +148,23 @@ TActive ==
 \* hands the still rejecting nodes to the recycler again.
 TRecycle ==
     /\ IsEvent("recycle")
-    /\ LET v    == View(nbk, g.rule, now)
-           vis  == Visible(v, g.active)
+    /\ LET r    == ResOf(Ev)
+           c    == g.cfgs[r]
+           v    == View(nbk[r], c.rule, now)
+           vis  == Visible(v, c.active)
            gone == vis \ SetOf(Ev.visible)
            keep == Without(After(v), gone)
            R2   == Rejecting(v) \ gone
-       IN  /\ nbk' = keep
-           /\ rec' = [n \in R2 |-> "sched"]
-           /\ Judge(/\ \A n \in gone : n \in DOMAIN rec /\ rec[n] = "sched"
+       IN  /\ nbk' = [nbk EXCEPT ![r] = keep]
+           /\ rec' = [rec EXCEPT ![r] = [n \in R2 |-> "sched"]]
+           /\ Judge(/\ \A n \in gone : n \in DOMAIN rec[r] /\ rec[r][n] = "sched"
                     /\ SetOf(Ev.visible) \subseteq vis,
-                    [visible |-> vis, recovered |-> { n \in DOMAIN rec : rec[n] = "rec" },
-                     scheduled |-> { n \in DOMAIN rec : rec[n] = "sched" }])
-    /\ UNCHANGED <<now, g, inflight>>
+                    [visible |-> vis, recovered |-> { n \in DOMAIN rec[r] : rec[r][n] = "rec" },
+                     scheduled |-> { n \in DOMAIN rec[r] : rec[r][n] = "sched" }])
+    /\ UNCHANGED <<now, g, inflight, pool>>
 
-TInit == /\ l = 1 /\ now = 0 /\ nbk = << >> /\ inflight = << >> /\ rec = << >> /\ failed = FALSE
-         /\ g = [tr |-> 0, rule |-> << >>, pct |-> <<0, 1>>, active |-> FALSE]
-TNext == TNew \/ TReq \/ TDone \/ TTick \/ TActive \/ TRecycle
+TInit == /\ l = 1 /\ now = 0 /\ nbk = << >> /\ inflight = << >> /\ rec = << >> /\ pool = {} /\ failed = FALSE
+         /\ g = [tr |-> 0, cfgs |-> << >>]
+TNext == TNew \/ TReq \/ TObs \/ TDone \/ TLeave \/ TTick \/ TActive \/ TRecycle
 TSpec == TInit /\ [][TNext]_tvars
 =============================================================================
